@@ -17,7 +17,7 @@ contract(F, "lemma_sum_drop", props=["C10"], lemma=True,
          ensures=["sum(m[:idx] + m[idx + 1:]) == sum(m) - m[idx]"], decreases="len(m)")
 
 _rev = ["len(r) == len(s)", "0 <= idx", "idx < len(s)", "r[0] == -s[idx]",
-        "forall(lambda j: implies(0 <= j and j < idx, r[j + 1] == s[j] - s[idx]))",
+        "forall(lambda j: implies(1 <= j and j <= idx, r[j] == s[j - 1] - s[idx]))",
         "forall(lambda j: implies(idx < j and j < len(r), r[j] == s[j] - s[idx]))"]
 
 contract(F, "lemma_quotient_link", props=["C10"], lemma=True,
@@ -33,6 +33,6 @@ contract(F, "lemma_quotient_link", props=["C10"], lemma=True,
 contract(F, "lemma_union_link", props=["C10"], lemma=True,
          params={"s": Seq(Int), "r": Seq(Int), "idx": Int},
          requires=["forall(lambda c: implies(0 <= c and c < len(s), s[c] == 0))"] + _rev,
-         ensures=["r[0] == 0", "forall(lambda j: implies(0 <= j and j < idx, r[j + 1] == 0))",
+         ensures=["r[0] == 0", "forall(lambda j: implies(1 <= j and j <= idx, r[j] == 0))",
                   "forall(lambda j: implies(idx < j and j < len(r), r[j] == 0))"],
          notes="links Complement's discipline (every child at n) to ReverseRule.shifts() of a DisjointUnionStrategy rule")
